@@ -59,6 +59,12 @@ func mainShapes() []shape {
 		{Name: "for-in-blocked-on-channel-iterated-by-an-earlier-run", Src: "for v in ch { tick() }", Pre: "ch := chan(2)\nch <- 1\nfor v in ch { break }"},
 		{Name: "loop-in-closure-of-an-earlier-run", Src: "f()", Pre: "f := func() { for { tick() } }"},
 		{Name: "sleep", Src: "time.sleep(3600)"},
+		// code that follows the blocking operation and fails on what it left half done: the evaluation ended
+		// because its context did, and must say so, not report the follow-up failure
+		{Name: "sleep-blocked-then-failing-statement", Src: "time.sleep(3600)\n[][0]"},
+		{Name: "range-chan-blocked-then-failing-statement", Src: "ch := chan()\nl := []\nfor v in ch { l.append(v) }\nl[0]"},
+		{Name: "list-of-chan-blocked-then-failing-statement", Src: "ch := chan()\nlist(ch)[0]"},
+		{Name: "sleep-blocked-then-raised-error", Src: "time.sleep(3600)\nerror(\"boom\")"},
 		{Name: "loop-in-map-callback", Src: "[1, 2, 3].map(func(x) { for { tick() } })"},
 		{Name: "loop-in-each-callback", Src: "[1, 2].each(func(x) { for { tick() } })"},
 		{Name: "loop-in-filter-callback", Src: "[1, 2].filter(func(x) { for { tick() } })"},
